@@ -265,7 +265,7 @@ mod real_run
                     DirPart::Table => { let _ = fs::remove_file(table_path()); },
                 },
                 Op::DamageState{..} => {},
-                Op::Restyle{..} | Op::PruneDirs | Op::MakeDirs => {},
+                Op::Restyle{..} | Op::PruneDirs | Op::MakeDirs | Op::DirAt{..} => {},
                 Op::Build{ goal, .. } =>
                 {
                     let mut printer = RecPrinter::new();
